@@ -203,12 +203,16 @@ def pytest_configure(config):
 
 
 def is_xfail(request):
-    if not "xfail" in request.keywords:
-        return False
-    xfail = request.keywords["xfail"]
-    if xfail.args and xfail.args[0] == False:
-        return False
-    return True
+    # a test can have several xfail marks (stacked decorators, class, module):
+    # pytest treats it as xfail if one of them applies
+    for xfail in request.node.iter_markers("xfail"):
+        if "condition" in xfail.kwargs:
+            conditions = (xfail.kwargs["condition"],)
+        else:
+            conditions = xfail.args
+        if not conditions or not all(c == False for c in conditions):
+            return True
+    return False
 
 
 @pytest.fixture(autouse=True)
